@@ -240,6 +240,7 @@ impl Engine for C12 {
                 lookups: plist.clone(),
                 app_rows: None,
                 app_files: 1,
+                app_console: false,
                 net_faults: vec![],
                 fs_faults: FsFaultSpec::default(),
                 knobs: Knobs::default(),
@@ -370,6 +371,7 @@ impl Engine for C12 {
                 lookups: vec![],
                 app_rows: Some(rows.clone()),
                 app_files: 1,
+                app_console: false,
                 net_faults: vec![],
                 fs_faults: FsFaultSpec::default(),
                 knobs: Knobs::default(),
@@ -403,6 +405,65 @@ impl Engine for C12 {
                 expected.push(e);
             }
             let any_err = expected.iter().any(|e| e.is_err());
+            // The same rows through the console application: the tables on stdout must show the
+            // CAD amount computed with the expected rate; a rejected run must say why on stderr.
+            {
+                crate::interpose::with_world(|w| w.fs.disk = crate::simfs::Disk::new());
+                let con = run_fx_process(FxPlan {
+                    data: boc.clone(),
+                    today,
+                    published_today: pt,
+                    force: false,
+                    cache: CacheKind::Mem,
+                    mem_in: MemState::new(),
+                    lookups: vec![],
+                    app_rows: Some(rows.clone()),
+                    app_files: 1,
+                    app_console: true,
+                    net_faults: vec![],
+                    fs_faults: FsFaultSpec::default(),
+                    knobs: Knobs::default(),
+                    hash_seed: sc.hash_seed,
+                });
+                st.bump("sim.processes");
+                st.bump("probe.console_runs");
+                let out_txt = String::from_utf8_lossy(&con.stdout).to_string();
+                let err_txt = String::from_utf8_lossy(&con.stderr).to_string();
+                digest = fnv64_add(digest, out_txt.as_bytes());
+                let con_ok = matches!(&con.app, Some(Ok(_)));
+                if con.panic.is_some() {
+                    push(Violation { kind: "panic".into(), signature: "panic in console application".into(), detail: format!("rows:\n{}{:?}", app_csv(rows), con.panic) }, &mut violations);
+                } else if any_err {
+                    let explained = err_txt.lines().any(|l| !l.trim().is_empty() && !l.starts_with("Fetching"));
+                    if con_ok || out_txt.contains("Transactions for") {
+                        if !(malformed_cfg && con_ok) {
+                            push(Violation { kind: "console_accepts_invalid".into(), signature: "console run prints tables although a needed rate does not exist".into(), detail: format!("today {} published_today {} rows:\n{}expected {:?}\nstdout starts: {:?}", today, pt, app_csv(rows), expected, out_txt.lines().next()) }, &mut violations);
+                        }
+                    } else if !explained {
+                        push(Violation { kind: "empty_error".into(), signature: "console run fails without an explanation on stderr".into(), detail: format!("rows:\n{}stderr: {:?}", app_csv(rows), err_txt) }, &mut violations);
+                    } else {
+                        st.bump("probe.console_run_rejected_with_message");
+                    }
+                } else if con_ok {
+                    st.bump("probe.console_run_printed_tables");
+                    for (i, row) in rows.iter().enumerate() {
+                        let is_usd_lookup = row.cur.as_ref().map(|c| c.to_uppercase() == "USD").unwrap_or(false) && row.fx.is_none();
+                        if !is_usd_lookup || malformed_cfg {
+                            continue;
+                        }
+                        if let Ok(((_, tr), _)) = &expected[i] {
+                            // 1000 shares at 10.00 USD: the Amount cell is $<10000 x rate> to the cent
+                            let amount = (Decimal::from(10000) * *tr).round_dp_with_strategy(2, rust_decimal::RoundingStrategy::MidpointAwayFromZero);
+                            let cell = format!("${:.2}", amount);
+                            if !out_txt.contains(&cell) {
+                                push(Violation { kind: "console_wrong_amount".into(), signature: "Amount cell of a USD row not computed with the expected rate".into(), detail: format!("today {} published_today {} rows:\n{}row {}: expected an Amount cell {} (10000.00 USD x {}), not found on stdout", today, pt, app_csv(rows), i, cell, tr) }, &mut violations);
+                            }
+                        }
+                    }
+                } else if !malformed_cfg {
+                    push(Violation { kind: "app_error_where_rates_exist".into(), signature: "console application rejects rows the property accepts".into(), detail: format!("today {} published_today {} rows:\n{}stderr: {}", today, pt, app_csv(rows), err_txt.lines().last().unwrap_or("")) }, &mut violations);
+                }
+            }
             let got = match (&obs.panic, &obs.app) {
                 (Some(p), _) => Err(format!("PANIC: {}", p)),
                 (None, Some(r)) => r.clone(),
@@ -585,7 +646,7 @@ impl Engine for C12 {
         "exploration"
     }
     fn rule(&self) -> String {
-        "Per simulation one seeded publication calendar over 2-4 years (weekends, fixed+random holidays, 0-3 gaps of 3-11 days placed at random / across a year end / in early January; some spans straddle the 2016/2017 noon->daily seam; every published value unique with >=5 decimals), a simulated today, a published-today flag, 4-14 look-up dates biased to today-9..today+2, gap ends +-, Jan 1-8 / Dec 24-31, the seam, plus uniform; each look-up runs the real RateLoader/JsonRemoteRateLoader in a fresh simulated process with an empty cache against SimBoC; 1-2 sequences of 2-5 nearby dates (steps of +-1..4 or +-7/8 days) are looked up by ONE loader in one process (rows of a CSV share a loader), each answer still compared with the model; plus 1-3 application runs (CSV rows with USD/CAD/other currency, with/without explicit rate, separate commission currency) through run_acb_app_to_delta_models. One fifth of simulations damage 1-4 observations (obs_malformed). Oracle: reference model (rate of the date if in the snapshot; else error if date >= today; else first present of d-1..d-7; else error), exact for noon values, |rate*v-1|<1e-20 for daily. evaluations = simulations; distinct_nontrivial = distinct simulations with at least one look-up that needed a look-back or had no usable rate.".to_string()
+        "Per simulation one seeded publication calendar over 2-4 years (weekends, fixed+random holidays, 0-3 gaps of 3-11 days placed at random / across a year end / in early January; some spans straddle the 2016/2017 noon->daily seam; every published value unique with >=5 decimals), a simulated today, a published-today flag, 4-14 look-up dates biased to today-9..today+2, gap ends +-, Jan 1-8 / Dec 24-31, the seam, plus uniform; each look-up runs the real RateLoader/JsonRemoteRateLoader in a fresh simulated process with an empty cache against SimBoC; 1-2 sequences of 2-5 nearby dates (steps of +-1..4 or +-7/8 days) are looked up by ONE loader in one process (rows of a CSV share a loader), each answer still compared with the model; plus 1-3 application runs (CSV rows with USD/CAD/other currency, with/without explicit rate, separate commission currency) through run_acb_app_to_delta_models and through run_acb_app_to_console (the Amount cell of every USD row on the captured stdout must be 10000 x the expected rate to the cent; a rejected run must explain itself on stderr and print no tables). One fifth of simulations damage 1-4 observations (obs_malformed). Oracle: reference model (rate of the date if in the snapshot; else error if date >= today; else first present of d-1..d-7; else error), exact for noon values, |rate*v-1|<1e-20 for daily. evaluations = simulations; distinct_nontrivial = distinct simulations with at least one look-up that needed a look-back or had no usable rate.".to_string()
     }
     fn state_measure(&self) -> String {
         "distinct (look-back depth 0..7|none, crosses year, series, relation of date to today, malformed config) tuples".to_string()
@@ -624,6 +685,8 @@ impl Engine for C12 {
             "probe.app_separate_commission_currency",
             "probe.app_run_accepted",
             "probe.app_run_rejected",
+            "probe.console_run_printed_tables",
+            "probe.console_run_rejected_with_message",
             "fault.obs_malformed_on_lookup_path",
         ]
     }
